@@ -119,6 +119,34 @@ static void noise_sweep02(void) {
     }
 }
 
+/* ------------------------------------------------------------------ c03 getter-failure sweep
+ * The Hello's header fields must be right whatever the platform getters answer: every single failing per-interface /
+ * per-host getter (except the hardware-address getter: without it the responder cannot know its own address), and all of
+ * them together, on a wired and on a wireless interface x both services x direct / bridged x first / repeated Discover.
+ * pseudo path: [getter bit (16 = all), wifi*4 + tos*2 + bridged] */
+static int gf_stage[2], gf_n; static uint64_t gf_cases;
+static void gf_case(int bit, int cfg) {
+    int wifi = (cfg >> 2) & 1, tos = (cfg >> 1) & 1, br = cfg & 1;
+    uint32_t mask = bit >= 16 ? 0xFFFFFFFFu : (1u << bit); mask &= ~(uint32_t)VF_G_MAC;
+    vf_iface *fi = &W.iface[0]; int w0 = fi->wifi; uint32_t f0 = fi->fail, h0 = W.host.fail;
+    fi->wifi = wifi; fi->fail = mask; W.host.fail = mask;
+    vf_world_reset(); root_setup(); vf_trace_clear();
+    for (int rep = 0; rep < 2; rep++) {
+        pev d = ev_discover((uint8_t)tos, ST_M1, br ? ST_BR : ST_M1, (uint16_t)(0x1234 + rep), (uint16_t)(1 + rep));
+        if (A.verbose) { char nm[160]; pev_name(&d, nm, sizeof nm); printf("    getters failing: mask 0x%08x, %s interface: %s\n", mask, wifi ? "wireless" : "wired", nm); }
+        vf_trace_clear(); apply_pev(&d); gf_cases++;
+    }
+    fi->wifi = w0; fi->fail = f0; W.host.fail = h0;
+}
+static void gf_name(int ev, char *b, size_t cap) { snprintf(b, cap, "arg(%d)", ev); }
+static void gf_apply(int ev) { gf_stage[gf_n++] = ev; if (gf_n == 2) { gf_n = 0; gf_case(gf_stage[0], gf_stage[1]); } }
+static void gf_root(void) { gf_n = 0; }
+static e1_cfg gfcfg = { .nev = 1 << 16, .ev_name = gf_name, .apply = gf_apply, .root_setup = gf_root };
+static void getter_sweep03(void) {
+    static int p[2];
+    for (int bit = 0; bit <= 16; bit++) for (int cfg = 0; cfg < 8; cfg++) { p[0] = bit; p[1] = cfg; e1_manual_path(&gfcfg, p, 2); gf_case(bit, cfg); vf_outcome(vf_trace_hash() ^ (uint64_t)bit); }
+}
+
 /* ------------------------------------------------------------------ c19 on the protocol closure */
 static uint32_t serial0, newblocks; static uint64_t newbytes;
 static void count_new(void *p, size_t size, uint32_t serial, void *arg) { (void)p; (void)arg; if (serial >= serial0) { newblocks++; newbytes += size; } }
@@ -247,12 +275,18 @@ int main(int argc, char **argv) {
         A.verbose = 1;
         if (mode == 9) return e3_replay_file(&c3, A.replay);
         if (mode == 3 && A.a == 3) return e1_replay_file(&vscfg, A.replay);
+        if (mode == 3 && A.a == 5) return e1_replay_file(&gfcfg, A.replay);
         if (mode == 2 && A.a == 4) return e1_replay_file(&nscfg, A.replay);
         return e1_replay_file(&cfg, A.replay);
     }
     double t0 = vf_now_s();
     e1_stats st;
-    if (mode == 3 && A.a == 3) {
+    if (mode == 3 && A.a == 5) {
+        memset(&st, 0, sizeof st);
+        getter_sweep03();
+        st.transitions = gf_cases; st.fixpoint = 1;
+        vf_sample("getter-failure sweep: {each of 15 getters failing alone, all failing} x {wired, wireless} x both services x direct/bridged x first/repeated Discover: the Hello's header fields as demanded");
+    } else if (mode == 3 && A.a == 3) {
         memset(&st, 0, sizeof st);
         value_sweep03();
         st.transitions = vs_cases; st.fixpoint = 1;
@@ -289,6 +323,17 @@ int main(int argc, char **argv) {
             int pre[2] = { disc, FLOOD_BASE + FL[fi] }; vf_snap *sn[E3_MAXW] = { NULL, NULL, NULL };
             seed_from_prefix(pre, 2, sn); seeds_tried++;
             e3_add_seed(sn, pre, 2); free(sn[0]); free(sn[1]);
+        }
+        /* ... and a see-list larger than one QueryResp, ONE Query (answered with 'more'), then the Reset before the remainder was fetched */
+        if (A.b != 1) {
+            int disc = -1, qry = -1;
+            for (int i = 0; i < NEV; i++) { if (disc < 0 && EV[i].opcode == 0 && EV[i].tos == 0 && EV[i].realsrc == ST_M1 && EV[i].ethsrc == ST_M1) disc = i; if (qry < 0 && EV[i].opcode == 6 && EV[i].tos == 0 && EV[i].realsrc == ST_M1 && EV[i].ethsrc == ST_M1) qry = i; }
+            int cap = (int)((W.iface[0].mtu - 34) / 20);
+            for (int k = 0; k < 3 && disc >= 0 && qry >= 0; k++) {
+                int pre[3] = { disc, FLOOD_BASE + cap + (k == 0 ? 1 : k == 1 ? 2 : cap + 1), qry }; vf_snap *sn[E3_MAXW] = { NULL, NULL, NULL };
+                seed_from_prefix(pre, 3, sn); seeds_tried++;
+                e3_add_seed(sn, pre, 3); free(sn[0]); free(sn[1]);
+            }
         }
         vf_extra("phase1", "closure from fresh: %llu states, %llu transitions, fixpoint=%d; Reset applied in every one of them; %u distinct (state.Reset, fresh) seed pairs", (unsigned long long)st.states, (unsigned long long)st.transitions, st.fixpoint, e3_nseeds());
         e3_stats s3; c3.deadline_s = cfg.deadline_s;
